@@ -104,6 +104,40 @@ Theorem C03_harness_logs_owned : forall ops, owned_logs (issue_logs ops).
 Proof. exact issue_logs_owned. Qed.
 Print Assumptions C03_harness_logs_owned.
 
+(* WHEN a handler completes is no part of the issue order: a request whose handler returns first
+   and issues its pushes and its completion in a later turn of its service (asynchronous
+   completion) issues exactly what it would issue completing at once - so every order theorem
+   above speaks about both, and a push issued before the completion arrives before the response,
+   one issued after it after it, whichever turn they were issued in. *)
+Theorem C03_completion_turn_irrelevant : forall b ops cs dead,
+  issue_from cs dead (map (set_later b) ops) = issue_from cs dead ops.
+Proof. exact later_irrelevant. Qed.
+Print Assumptions C03_completion_turn_irrelevant.
+
+(* Multi-target pushes: connections that get nothing (closed by a kick but still listed, or never
+   connected) among the targets change nothing for any connection that does - it is sent every
+   push of the sequence, in order, wherever the others stand in the list ... *)
+Theorem C03_closed_targets_harmless : forall i tag pads (keep : Z -> bool) targets from count c,
+  keep c = true ->
+  filter (fun x => Z.eqb (it_conn x) c) (pushes i tag pads (filter keep targets) from count) =
+  filter (fun x => Z.eqb (it_conn x) c) (pushes i tag pads targets from count).
+Proof. exact pushes_listed_closed. Qed.
+Print Assumptions C03_closed_targets_harmless.
+
+(* ... and a connection that is not among them is sent none. *)
+Theorem C03_untargeted_gets_nothing : forall i tag pads targets from count c,
+  ~ In c targets ->
+  filter (fun x => Z.eqb (it_conn x) c) (pushes i tag pads targets from count) = [].
+Proof. exact pushes_not_listed. Qed.
+Print Assumptions C03_untargeted_gets_nothing.
+
+(* non-vacuity: room-1 kicks connection 2 and pushes to [2; 1; 3] from a later turn: 1 and 3 are
+   sent both pushes around the response, 2 nothing; 2's later request is not served *)
+Example C03_example_kick :
+  issue_from [] [] [OConn 1 0; OConn 2 0; OConn 3 0; OSend 1 2 1 1 7 [] 0 1 [2; 1; 3] true 2; OSend 2 0 1 0 8 [] 0 0 [] false 0]
+  = [mkItem 3 1 KPush 7 0 0; mkItem 3 3 KPush 7 0 0; mkItem 3 1 KResp 7 0 0; mkItem 3 1 KPush 7 1 0; mkItem 3 3 KPush 7 1 0].
+Proof. vm_compute. reflexivity. Qed.
+
 (* non-vacuity: three issuers, two connections, a schedule that interleaves them and drains *)
 Example C03_example :
   let logs := [(0, [mkItem 0 1 KPush 1 0 0; mkItem 0 1 KResp 1 0 0]);
